@@ -7,6 +7,7 @@ from . import base, tlc, flat
 
 TIMEOUT = 1.0          # the engine's configured timeout_seconds
 K = 8                  # "within a bound governed by the timeout": K x timeout, measured from outside the process
+SLOW_SCALE = 0.25      # the many-costly-nodes family runs on an engine configured with SLOW_SCALE x TIMEOUT and is allowed K x that
 DENIED = {"eval", "exec", "compile", "getattr", "setattr", "delattr", "__import__", "open", "globals", "locals", "vars", "type", "object", "input",
           "breakpoint", "memoryview", "dir", "help", "exit", "quit", "classmethod", "staticmethod", "super", "property", "print", "id", "iter", "next"}
 
@@ -33,6 +34,43 @@ FORB = {
     "Import": ["__import__('os').system('true')", "__import__('subprocess').run(['true'])"],
     "BigAttrChain": ["().__class__.__bases__[0].__subclasses__()", "''.__class__.__mro__[1]"],
 }
+
+
+def _raiser(make):
+    def f(*a, **k):
+        raise make()
+    return f
+
+
+def _assert_false(*a, **k):
+    assert False
+
+
+class _Odd(Exception):
+    def __init__(self):          # no args at all, not even through super()
+        pass
+
+
+FAILING_TOOLS = {
+    "fail_noargs": _raiser(lambda: NotImplementedError()), "fail_msg": _raiser(lambda: ValueError("bad value")), "fail_key": _raiser(lambda: KeyError("k")),
+    "fail_assert": _assert_false, "fail_stop": lambda *a, **k: next(iter(())), "fail_os": _raiser(lambda: OSError(2, "No such file")),
+    "fail_tuple": _raiser(lambda: ValueError(1, 2)), "fail_odd": _raiser(_Odd), "fail_unicode": _raiser(lambda: RuntimeError("\ud800 \x00")),
+    "fail_recursion": _raiser(lambda: RecursionError()), "fail_memory": _raiser(lambda: MemoryError()), "fail_timeout": _raiser(lambda: TimeoutError()),
+    "fail_zero": lambda *a, **k: 1 // 0, "fail_nonstr": _raiser(lambda: Exception(None)), "fail_bytes": _raiser(lambda: Exception(b"\xff")),
+}
+
+# allowed but costly units: no single node exceeds a size guard, many of them exceed any timeout (the deadline has to be honoured between nodes)
+SLOW_UNITS = ["max([0]*1000000)", "min([1]*1000000)", "sum([0.5]*1000000)", "([0]*1000000 == [0]*1000000)", "sum([0]*1000000)", "len('a'*1000000 + 'b'*1000)",
+              "float('1'*100000)", "max([0]*1000000 + [1])"]
+
+
+def slow_sources(quick):
+    out = []
+    for u in (SLOW_UNITS[:2] if quick else SLOW_UNITS):
+        for wrap in ((("max([", "])"),) if quick else (("max([", "])"), ("min(", ")"), ("sum([", "])"))):
+            n = (9990 - len(wrap[0]) - len(wrap[1])) // (len(u) + 2)
+            out.append(wrap[0] + ", ".join([u] * n) + wrap[1])
+    return out
 
 
 def gen(module="MC_Evaluator"):
@@ -64,6 +102,10 @@ def bsrc(e):
         return "(%s * %s)" % (bsrc(e["a"]), bsrc(e["b"]))
     if k == "fact":
         return "factorial(%s)" % bsrc(e["a"])
+    if k == "lst":
+        return "[%s]" % bsrc(e["a"])
+    if k == "agg":
+        return "sum(%s, [])" % bsrc(e["a"]) if e["f"] == "sumcat" else "%s(%s)" % (e["f"], bsrc(e["a"]))
     raise ValueError(k)
 
 
@@ -157,11 +199,14 @@ def worker():
         m = mito.Mitochondria(timeout_seconds=TIMEOUT, silent=True)
         m.register_function("tool", lambda *a, **k: tool_calls.append(1) or 7, "a tool")
         m.register_function("wire", lambda *a, **k: tool_calls.append(1) or 9, "another tool")
+        for name, thunk in FAILING_TOOLS.items():       # tools are arbitrary user code: whatever Exception they raise must come back as a failure result
+            m.register_function(name, thunk, "a failing tool")
         return m
     shared = mk()
+    brisk = mito.Mitochondria(timeout_seconds=TIMEOUT * SLOW_SCALE, silent=True)     # for the many-costly-nodes family: a quarter of the timeout, a quarter of the allowance
     for line in sys.stdin:
         c = json.loads(line)
-        m = shared
+        m = shared if c.get("scale", 1.0) == 1.0 else brisk
         if m.get_ros_level() > 0:
             m.repair(10 ** 6)
         state["effects"] = []
@@ -216,7 +261,7 @@ def run_cases(cases, deadline):
             p.stdin.write(json.dumps(c) + "\n")
             p.stdin.flush()
         t0 = time.time()
-        rl, _, _ = select.select([p.stdout], [], [], deadline)
+        rl, _, _ = select.select([p.stdout], [], [], deadline * c.get("scale", 1.0))
         line = p.stdout.readline() if rl else ""
         if not line:
             crashed = bool(rl)       # EOF: the child died (memory limit, fatal error)
@@ -311,7 +356,7 @@ def run(tier):
 
     def add(src, kind, pathway=None, **extra):
         cid = len(cases)
-        cases.append({"id": cid, "src": src, "pathway": pathway})
+        cases.append({"id": cid, "src": src, "pathway": pathway, "scale": SLOW_SCALE if kind == "slow" else 1.0})
         meta[cid] = dict(extra, kind=kind, src=src[:200], pathway=pathway or "auto")
     for c in forb:
         kd = forb_kind(c["ast"])
@@ -325,12 +370,23 @@ def run(tier):
               "tool(a=(lambda: 1)())", "Tool(1)", "tool (1)", "tool(1) + tool(2)", "[tool(1)]", "tool(open('/etc/passwd'))", "tool(__import__('os'))"]:
         for pw in (None, "tool"):
             add(s, "forb", pw, spec="err" if s not in ("tool(1)", "(tool)(1)", "tool (1)") else "val", construct="ToolPathway", want={"t": "int", "v": 7})
+    for name in FAILING_TOOLS:
+        for srcf in ("%s(1)", "%s()", "%s(1, k=2)"):
+            for pw in (None, "tool"):
+                add(srcf % name, "tool", pw, spec="err", construct="FailingTool")
+    for s in slow_sources(quick):
+        for pw in (None, "math"):
+            add(s, "slow", pw)
     for c in bomb:
         s = bsrc(c["ast"])
         for pw in ((None, "math", "legacy") if c["bomb"] else (None, "legacy")):
             add(s, "bomb", pw, bomb=c["bomb"], safe=c["safe"], alo=c["alo"], ahi=c["ahi"], hi=c["hi"])
     for s in ["9**9**9**9", "9 ** 9 ** 9", "-(9**9**9)", "abs(-(2 ** 2 ** 40))", "[0] * 10 ** 10", "'ab' * 9 ** 12", "(10 ** 6) ** (10 ** 6)", "factorial(factorial(12))", "2 ** 2 ** 2 ** 2 ** 2 ** 2",
-              "10**2200*10**2200", "2 ** 16000", "int('9' * 4000) + 1", "sum([2 ** 10 ** 9])", "max(9 ** 9 ** 9, 1)", "1 if 9 ** 9 ** 9 else 0", "not 10 ** 10 ** 10", "10 ** 10 ** 10 > 1", "len('a' * 10 ** 12)", "'a' * 10 ** 6 * 10 ** 6", "int('9' * 9000) ** 9000"]:
+              "10**2200*10**2200", "2 ** 16000", "int('9' * 4000) + 1", "sum([2 ** 10 ** 9])", "max(9 ** 9 ** 9, 1)", "1 if 9 ** 9 ** 9 else 0", "not 10 ** 10 ** 10", "10 ** 10 ** 10 > 1", "len('a' * 10 ** 12)", "'a' * 10 ** 6 * 10 ** 6", "int('9' * 9000) ** 9000",
+              "max([1000] * 1000000, key=factorial)", "min([900] * 1000000, key=factorial)", "max([0.5] * 1000000, key=exp)", "sum([[0]] * 300000, [])", "sum([(0,)] * 300000, ())",
+              "'%1000000000d' % 1", "len('%*d' % (1000000000, 1))", "'%.1000000000f' % 1.5", "['%1000000000d' % 1, '%1000000000d' % 2, '%1000000000d' % 3, '%1000000000d' % 4, '%1000000000d' % 5]",
+              "max([[0] * 1000000] * 1000000, [[0] * 1000000] * 1000000)", "[[0] * 1000000] * 1000000 == [[1] * 1000000] * 1000000", "([[0] * 1000000] * 1000000) < ([[0] * 1000000] * 1000000)",
+              "max([[0] * 1000000] + [[0] * 1000000] * 999999)", "max([[0] * 1000000, [0] * 1000000, [0] * 1000000] * 300000)", "max(([0] * 1000000,) * 1000000)"]:
         add(s, "bomb", None, bomb=False, safe=False, alo=0, ahi=0, hi=10 ** 9)
         add(s, "bomb", "legacy", bomb=False, safe=False, alo=0, ahi=0, hi=10 ** 9)
     for s in fuzz_strings(rng, 600 if quick else 60000):
@@ -348,7 +404,7 @@ def run(tier):
             if not (c["alo"] <= max(size, 1) and size <= max(c["ahi"], 1)):
                 raise base.MachineryError("EvalSem.tla size model is wrong for %s: size %d not in [%d, %d]" % (bsrc(c["ast"]), size, c["alo"], c["ahi"]))
     # run in killable children
-    bombs_first = sorted(cases, key=lambda c: (meta[c["id"]]["kind"] != "bomb", c["id"]))
+    bombs_first = sorted(cases, key=lambda c: (meta[c["id"]]["kind"] not in ("bomb", "slow"), c["id"]))
     nb = 8
     parts = [bombs_first[i::nb] for i in range(nb)]
     with cf.ThreadPoolExecutor(max_workers=nb) as ex:
@@ -392,13 +448,17 @@ def run(tier):
                 sig = "%s construct=%s pathway=%s" % (cname, m.get("construct"), m["pathway"])
             elif m["kind"] == "bomb":
                 sig = "%s resource-family %s" % (cname, "bomb" if m.get("bomb") else "non-bomb")
+            elif m["kind"] == "tool":
+                sig = "%s failing-tool pathway=%s" % (cname, m["pathway"])
+            elif m["kind"] == "slow":
+                sig = "%s many-costly-nodes pathway=%s" % (cname, m["pathway"])
             else:
                 sig = "%s arbitrary-string pathway=%s" % (cname, m["pathway"])
             R.violation(sig, {"clause": cname, "case": m, "observed": o})
     R.cov["traces_validated_against_impl"] = len(recs)
     R.cov["evaluations"] = len(recs)
     R.cov["distinct_nontrivial"] = sum(1 for (m, o) in order if m["kind"] in ("forb", "bomb"))
-    R.cov["by_kind"] = {k: sum(1 for (m, o) in order if m["kind"] == k) for k in ("forb", "bomb", "fuzz", "table")}
+    R.cov["by_kind"] = {k: sum(1 for (m, o) in order if m["kind"] == k) for k in ("forb", "bomb", "tool", "slow", "fuzz", "table")}
     R.cov["timeouts"] = sum(1 for x in recs if x["timeout"])
     R.cov["drift_unnecessary_refusals"] = sum(1 for (m, o) in order if m["kind"] == "bomb" and m.get("safe") and not o.get("success"))
     R.cov["drift_bombs_computed_anyway"] = sum(1 for (m, o) in order if m["kind"] == "bomb" and m.get("bomb") and o.get("success"))
